@@ -184,6 +184,13 @@ pub fn drive_c06(a: &Args) {
             for t in [vec![lb, lb], vec![lb], vec![la, lb, lb], vec![lb, lb, la], vec![lb, la, lb]] {
                 call_all(&mut out, &s, &t, &vec![la, lb], &is, &is);
             }
+            // at / substr with positions and lengths around the block boundaries, and the extremes
+            if pos == 0 {
+                let idx: Vec<i32> = vec![-1, 0, 7, 8, 15, 16, 17, len as i32 - 1, len as i32, len as i32 + 1, i32::MAX];
+                let lens: Vec<i32> = vec![-1, 0, 1, 8, 16, 17, len as i32, i32::MAX];
+                let distinct: Vec<u32> = (0..len).map(|i| 0x100 + i as u32).collect();
+                call_unary(&mut out, &distinct, &idx, &lens);
+            }
             // a string against itself with one late difference
             let mut s2 = s.clone();
             s2[len - 1] = lb;
@@ -581,6 +588,27 @@ pub fn drive_c08(a: &Args) {
                 t.extend(s2.iter());
                 t.push(99);
                 out.emit(parse_event(&t));
+            }
+        }
+    }
+    // long texts (lengths around 16/32/64) with an escape, a failed attempt or a lone backslash straddling each
+    // block boundary
+    for &b in &[16usize, 32, 64] {
+        let pieces: Vec<Vec<u32>> = vec![
+            vec![92, 117, 48, 48, 52, 49], vec![92, 117, 123, 52, 49, 125], vec![92, 117, 123, 51, 102, 102, 102, 102, 125],
+            vec![92], vec![92, 117], vec![92, 117, 123, 52, 49], vec![34, 34],
+        ];
+        for p in &pieces {
+            for shift in 0..=p.len() {
+                if b < shift {
+                    continue;
+                }
+                let mut t: Vec<u32> = (0..b - shift).map(|i| 0x61 + (i as u32 % 3)).collect();
+                t.extend(p.iter());
+                t.extend([0x7A, 0x7A, 0x7A]);
+                out.emit(parse_event(&t));
+                // the same code points as a string to print
+                out.emit(print_event(&t));
             }
         }
     }
